@@ -517,6 +517,13 @@ func Average() Operator {
 	})
 }
 
+// PinnedMaxEmptyZero makes the Max model mirror the listed finding
+// C04-max-empty-emits-zero (the suite pins Max(empty) = [0]). The single-row C04
+// check, which reports that finding, runs with the documented model; every check
+// that merely has Max somewhere in a chain uses the pinned one, so that one
+// defect is not reported again under other properties.
+var PinnedMaxEmptyZero bool
+
 // MinMax: documented "emits no value" on an empty source.
 func MinMax(max bool) Operator {
 	return lift(func() *F {
@@ -528,7 +535,7 @@ func MinMax(max bool) Operator {
 				m, has = x, true
 			}
 		}, C: func(o Sink) {
-			if has {
+			if has || (max && PinnedMaxEmptyZero) {
 				o.Emit(m)
 			}
 			o.Complete()
